@@ -33,6 +33,7 @@ class Ctx:
         self.tier = tier
         self.seed = seed
         self.touched = set()
+        self.extra = {}
 
     def loc(self, qualname):
         fi = self.program.func(qualname)
